@@ -82,7 +82,11 @@ int snoopy_datasource_datetime (char * const resultBuf, size_t resultBufSize, ch
     }
 
     // Format it
+#ifdef SNOOPY_CONF_THREAD_SAFETY_ENABLED
+    if (0 == snoopy_tsrm_strftime(timeBuffer, SNOOPY_DATASOURCE_DATETIME_sizeMaxWithNull, formatToUse, curLocalTime)) {
+#else
     if (0 == strftime(timeBuffer, SNOOPY_DATASOURCE_DATETIME_sizeMaxWithNull, formatToUse, curLocalTime)) {
+#endif
         return snprintf(resultBuf, resultBufSize, "(error @ strftime())");
     }
 
